@@ -34,7 +34,7 @@ def collect(res, rng, nruns, max_cases, kind="sh", integ="exp"):
         cls = dict(sh=mudslide.TrajectorySH, eh=mudslide.Ehrenfest, cum=mudslide.TrajectoryCum)[kind]
         kw = dict(hopping_probability="poisson" if pois else "tully") if kind == "sh" else {}
         if integ == "rk4":
-            kw["electronic_integration"] = "linear-rk4"; dt = rng.choice([0.5, 1.0, 2.0]) if nd == 1 else 1.0
+            kw["electronic_integration"] = "linear-rk4"; dt = rng.choice([0.5, 1.0, 2.0, 0.7, 1.3, 2.4]) if nd == 1 else rng.choice([1.0, 0.9])
         if kind == "cum" and rng.random() < 0.5:
             kw = dict(hopping_probability="poisson")       # the option belongs to plain FSSH; the cumulative class accumulates the unscaled rates either way
         a0 = rng.randrange(n) if rng.random() < 0.4 else 0
